@@ -85,7 +85,7 @@ def build_cli():
 def harness(binary, args, stdin=None, timeout=3600, check=True):
     """run harness binary `binary` (e.g. "nv-list") with args"""
     p = subprocess.run([os.path.join(BIN_DIR, binary)] + list(args), input=stdin, stdout=subprocess.PIPE,
-                       stderr=subprocess.PIPE, text=True, timeout=timeout)
+                       stderr=subprocess.PIPE, text=True, timeout=timeout, encoding="utf-8", errors="replace")
     if check and p.returncode != 0:
         raise ToolError("harness %s failed (%d):\n%s" % (args, p.returncode, p.stderr[-4000:]))
     return p
@@ -130,11 +130,13 @@ def tlc(module, cfg=None, workers=8, timeout=1800, simulate=None, depth=None, se
     e = _env()
     if env:
         e.update(env)
-    jopts = jvm or "-Xss512m"
+    jopts = (jvm or "-Xss512m") + " -Dfile.encoding=UTF-8 -Dstdout.encoding=UTF-8 -Dsun.jnu.encoding=UTF-8"
     e["JAVA_TOOL_OPTIONS"] = (e.get("JAVA_TOOL_OPTIONS", "") + " " + jopts).strip()
+    e.setdefault("LC_ALL", "C.UTF-8")
     t = time.time()
     res = TLCResult()
-    proc = subprocess.Popen(cmd, cwd=cwd, env=e, stdout=subprocess.PIPE, stderr=subprocess.STDOUT, text=True)
+    proc = subprocess.Popen(cmd, cwd=cwd, env=e, stdout=subprocess.PIPE, stderr=subprocess.STDOUT, text=True,
+                            encoding="utf-8", errors="replace")
     other = []
     for line in proc.stdout:
         line = line.rstrip("\n")
@@ -292,7 +294,7 @@ class Report:
 
 
 def write_ndjson(path, rows):
-    with open(path, "w") as f:
+    with open(path, "w", encoding="utf-8") as f:
         for r in rows:
             f.write(json.dumps(r, separators=(",", ":")) + "\n")
 
